@@ -372,63 +372,5 @@ pub(crate) fn k_struct_decode_constant_verbatim() {
     vk_assert!(s0 && s1 && !s2 && v0 == a << w && v1 == b << w, "VERBATIM subframe decodes to its samples shifted by the wasted bits, in order, nothing more");
 }
 
-macro_rules! k_struct_decode_fixed {
-    ($name:ident, $order:expr, $zero_part:expr) => {
-        #[kani::proof]
-        #[kani::unwind(8)]
-        pub(crate) fn $name() {
-            let w: u32 = kani::any();
-            kani::assume(w < 32);
-            const ORDER: usize = $order;
-            let wu: [i32; 4] = kani::any();
-            let r: [i32; 2] = kani::any();
-            let r1: [i32; 2] = if $zero_part { [0, 0] } else { kani::any() };
-            let second = if $zero_part {
-                ResidualPartition::Constant { partition_len: 2 }
-            } else {
-                ResidualPartition::Escaped { escape_size: SignedBitCount::new::<20>(), residuals: vec![r1[0], r1[1]] }
-            };
-            // block of ORDER + 4 samples: partition order 1 needs an even block, so ORDER is even there; the first
-            // partition holds (block/2 - ORDER) residuals -- instances keep that at 2 by using block = 2*(ORDER+2)
-            let sub = Subframe::<i32>::Fixed {
-                order: ORDER as u8,
-                warm_up: wu[..ORDER].to_vec(),
-                residuals: Residuals::Method0 { partitions: vec![ResidualPartition::Standard { rice: BitCount::new::<3>(), residuals: vec![r[0], r[1]] }, second] },
-                wasted_bps: w,
-            };
-            // reference: RFC 9639 9.2.5 FIXED predictors, wrapping arithmetic in 64 bits, truncated to the sample type
-            let res = [r[0], r[1], r1[0], r1[1]];
-            let mut s = [0i64; 8];
-            let mut i = 0;
-            while i < ORDER { s[i] = wu[i] as i64; i += 1; }
-            let mut j = 0;
-            while j < 4 {
-                let n = ORDER + j;
-                let p: i64 = match ORDER {
-                    0 => 0,
-                    1 => s[n - 1],
-                    2 => s[n - 1].wrapping_mul(2).wrapping_sub(s[n - 2]),
-                    3 => s[n - 1].wrapping_mul(3).wrapping_sub(s[n - 2].wrapping_mul(3)).wrapping_add(s[n - 3]),
-                    _ => s[n - 1].wrapping_mul(4).wrapping_sub(s[n - 2].wrapping_mul(6)).wrapping_add(s[n - 3].wrapping_mul(4)).wrapping_sub(s[n - 4]),
-                };
-                s[n] = ((res[j] as i64).wrapping_add(p)) as i32 as i64;
-                j += 1;
-            }
-            let mut it = sub.decode();
-            let mut ok = true;
-            let mut n = 0usize;
-            while n < ORDER + 5 {
-                let (some, v) = next_or(&mut *it, 0);
-                if !some { break; }
-                if n < ORDER + 4 { ok &= v == (s[n] as i32) << w; }
-                n += 1;
-            }
-            vk_assert!(n == ORDER + 4, "FIXED subframe decodes to order + residual-count samples");
-            vk_assert!(ok, "FIXED subframe decodes to warm-up followed by RFC 9.2.5 reconstruction of the residuals of all partitions in order, shifted by the wasted bits");
-        }
-    };
-}
-k_struct_decode_fixed!(k_struct_decode_fixed_o0_esc, 0, false);
-k_struct_decode_fixed!(k_struct_decode_fixed_o1_zero, 1, true);
-k_struct_decode_fixed!(k_struct_decode_fixed_o2_esc, 2, false);
-k_struct_decode_fixed!(k_struct_decode_fixed_o4_zero, 4, true);
+// FIXED / LPC subframes: built and removed -- `samples.extend(residuals.residuals())` through two layers of
+// Box<dyn Iterator> + flat_map does not finish in CBMC even for one residual (400 s timeout; 4 residuals: out of memory).
